@@ -97,3 +97,56 @@ Theorem C16_pinned_rewrite_refuted :
        go_expand nsub group (rewrite_refs_loop nsub r) = xpath_expand nsub group r).
 Proof. exact rewrite_correct_unrestricted_refuted. Qed.
 Print Assumptions C16_pinned_rewrite_refuted.
+
+(* ------------------------------------------------------------------ *)
+(* END TO END, from the TEXT  matches(E,'pat')  and  replace(E,'pat','tmpl')  (E a string literal or
+   a predicate-free path; the regexp engine is the model's parameters re_ok / rm / rn / rr):
+   a constant pattern that does not compile is rejected by Compile; otherwise matches is the
+   engine's verdict on the string value of E, and replace is ReplaceAll with the template in which
+   every $N has been braced, which Go's expansion reads as group N. *)
+From XP Require Import F64 Doc Ast Scan Parse Build Api.
+From XP.Spec Require Import Template.
+From XP.Proofs Require Import HashInj RoundTripOps RoundTripPaths EndToEndValues EndToEndRegex.
+Open Scope string_scope.
+
+Theorem C16_end_to_end_bad_pattern_rejected : forall re_ok ns e pat,
+  is_operand_px e -> xok (matches_px e pat) -> 1 + osize e <= max_build_depth ->
+  re_ok pat = false ->
+  compile re_ok (print_min (matches_px e pat)) ns = Err "matches() got error.".
+Proof. exact C16_text_matches_bad_pattern. Qed.
+Print Assumptions C16_end_to_end_bad_pattern_rejected.
+
+Theorem C16_end_to_end_matches : forall D has_ns hc rm rn rr,
+  hash_ok (hc D) (all_nodes D) ->
+  forall re_ok ns e pat,
+  is_operand_px e -> xok (matches_px e pat) -> 1 + osize e <= max_build_depth ->
+  re_ok pat = true ->
+  exists q,
+    compile re_ok (print_min (matches_px e pat)) ns = Ok q /\
+    forall c, valid D c = true ->
+    exists m, opval D has_ns e c m /\
+      evaluate rm rn rr hc D has_ns q c =
+      match rm pat (str_or_first D m) with
+      | Some b => Val (VBool b)
+      | None => Complaint "matches() function second argument is not a valid regexp pattern"
+      end.
+Proof. exact C16_text_matches. Qed.
+Print Assumptions C16_end_to_end_matches.
+
+Theorem C16_end_to_end_replace : forall D has_ns hc rm rn rr,
+  hash_ok (hc D) (all_nodes D) ->
+  forall re_ok ns e pat tmpl,
+  is_operand_px e -> not_number e -> xok (replace_px e pat tmpl) -> 1 + osize e <= max_build_depth ->
+  exists q,
+    compile re_ok (print_min (replace_px e pat tmpl)) ns = Ok q /\
+    (forall c, valid D c = true ->
+     exists m, opval D has_ns e c m /\
+       evaluate rm rn rr hc D has_ns q c =
+       match rm pat "" with
+       | None => Complaint "replace() function second argument is not a valid regexp pattern"
+       | Some _ => Val (VStr (rr pat (str_or_first D m) (rewrite_refs (rn pat) tmpl)))
+       end) /\
+    (String.length (itoa (rn pat)) <= 9 -> dollar_digit tmpl = true ->
+     forall group, go_expand (rn pat) group (rewrite_refs (rn pat) tmpl) = fo_expand (rn pat) group tmpl).
+Proof. exact C16_text_replace. Qed.
+Print Assumptions C16_end_to_end_replace.
